@@ -283,6 +283,8 @@ class RvExec:
         k = s['k']
         if k == 'Compound':
             ss = s['s']
+            if False:
+                pass
             if len(ss) >= 2 and ss[0]['k'] == 'Decl' and len(ss[0]['d']) == 1 and ss[0]['d'][0].get('init') is not None:
                 t2 = strip_all(ss[1])
                 if t2['k'] == 'Call' and t2.get('name') == 'memcpy' and len(t2['a']) == 3 and val(t2['a'][2]) in (2, 4):
@@ -295,8 +297,9 @@ class RvExec:
                         self.words.append((n_, w.resize(8 * n_, False), loc(s, f)))
                         return
             for x in ss:
-                if self._stmt(f, x, ev, depth):
-                    return True
+                r_ = self._stmt(f, x, ev, depth)
+                if r_:
+                    return r_
             return
         if k == 'If':
             c = val(s['c'])
@@ -307,6 +310,39 @@ class RvExec:
             return self._stmt(f, s['t'] if c else s.get('e'), ev, depth)
         if k == 'Return':
             return True
+        if k == 'Break':
+            return 'break'
+        if k == 'Switch':
+            cn = strip_all(s['c'])
+            while cn['k'] == 'Cast' and type_info(cn.get('ty')) is None:
+                cn = strip_all(cn['e'])
+            c = ev.ev(cn).value()
+            if c is None:
+                raise AnalysisBroken('RV-HSEM: switch on %s at %s is not decided by the instruction fields' % (show(s['c'])[:60], loc(s, f)))
+            stmts = s['b']['s'] if s['b']['k'] == 'Compound' else [s['b']]
+
+            def labels(st):
+                out = []
+                while st['k'] in ('Case', 'Default'):
+                    out.append(st)
+                    st = st['sub']
+                return out
+            matched = any(val(x_['lhs']) == c for st in stmts for x_ in labels(st) if x_['k'] == 'Case')
+            active = False
+            for st in stmts:
+                x_ = st
+                for lab in labels(st):
+                    if (lab['k'] == 'Case' and val(lab['lhs']) == c) or (lab['k'] == 'Default' and not matched):
+                        active = True
+                while x_['k'] in ('Case', 'Default'):
+                    x_ = x_['sub']
+                if active:
+                    r_ = self._stmt(f, x_, ev, depth)
+                    if r_ == 'break':
+                        return
+                    if r_:
+                        return r_
+            return
         if k in ('Decl', 'Null'):
             ev._exec(s, [])
             return
@@ -428,3 +464,77 @@ def rule_hsem(ctx, R, arch='rv64'):
                             R.ok(inst, where)
     if n < 2500:
         raise AnalysisBroken('RV-HSEM: only %d cases evaluated' % n)
+
+
+def rule_ss_hsem(ctx, R):
+    """SuperscalarHash emitter of the scalar RV64 back-end (IMUL_RCP is excluded: its multiplier comes from the literal pool, see RV-RCPPOOL)"""
+    from rules import x86hsem as X
+    F, hs = jit.handlers(ctx, 'rv64')
+    R.rule('RV-SS-HSEM', 'for each SuperscalarHash instruction kind except IMUL_RCP the words generateSuperscalarCode of the RV64 back-end emits, given their architectural meaning on terms over r0..r7, compute what specification '
+           'Table 6.1.1 prescribes and change no other VM register; every dst x src the generator can produce, boundary constants', min_instances=500)
+    R.saw(config='K3', unit='src/jit_compiler_rv64.cpp')
+    gs = [f for f in F.in_file('jit_compiler_rv64.cpp') if f['name'] == 'generateSuperscalarCode']
+    if len(gs) != 1:
+        raise AnalysisBroken('RV-SS-HSEM: generateSuperscalarCode not found')
+    g = gs[0]
+    R.saw(fn=g['q'])
+    regSS = [f for f in F.in_file('jit_compiler_rv64.cpp') if f['name'] == 'regSS']
+    if len(regSS) != 1:
+        raise AnalysisBroken('RV-SS-HSEM: regSS not found')
+    regmap = []
+    for i in range(8):
+        ev = KBEval(F, {regSS[0]['params'][0]['id']: KB.const(32, i)})
+        rets = []
+        ev._exec(regSS[0]['body'], rets)
+        v = rets[0].value() if rets else None
+        if v is None:
+            raise AnalysisBroken('RV-SS-HSEM: regSS(%d) is not a constant' % i)
+        regmap.append(v)
+    if len(set(regmap)) != 8:
+        raise AnalysisBroken('RV-SS-HSEM: regSS is not injective')
+    types = {k: v for k, v in F.enum('randomx::SuperscalarInstructionType').items() if k not in ('COUNT', 'INVALID')}
+    where = '%s:%d' % (g['file'], g['line'])
+    n = 0
+    for name, d, s, sh, imm in X.ss_cases(types):
+        if name == 'IMUL_RCP':
+            continue
+        n += 1
+        fields = {'dst': KB.const(8, d), 'src': KB.const(8, s), 'mod': KB.const(8, sh << 2), 'opcode': KB.const(8, types[name])}
+        ov = {'randomx::Instruction::getImm32': KB.const(32, imm), 'randomx::Instruction::getModShift': KB.const(32, sh)}
+        ex = RvExec(F, fields, ov)
+        ex.run(g, [None, None, None])
+        m = Machine(regmap)
+        tr, bad = [], None
+        if not ex.words:
+            bad = 'nothing is emitted'
+        for size, w, wh in ex.words:
+            v = w.value()
+            if v is None:
+                raise AnalysisBroken('RV-SS-HSEM: a word emitted at %s is not constant (%s)' % (wh, w.hexpat()))
+            try:
+                tr.append(m.step16(v, wh) if size == 2 else m.step32(v, wh))
+            except NotInteger as e:
+                bad = 'after `%s` the emitter produces %s (%s)' % (' ; '.join(tr), e, wh)
+                break
+        if bad is None:
+            got = [m.get(regmap[i]) for i in range(8)]
+            exp = X.ss_expected(name, d, s, sh, imm)
+            for i in range(8):
+                if got[i] != exp[i]:
+                    differs = None
+                    for vals in T.VALUATIONS:
+                        a_, b_ = T.term_eval(got[i].canon(), vals), T.term_eval(exp[i].canon(), vals)
+                        if a_ != b_:
+                            differs = (vals, a_, b_)
+                            break
+                    if differs is None:
+                        raise AnalysisBroken('RV-SS-HSEM: %s dst=r%d src=r%d: r%d is %s, the specification says %s; equivalence undecided' % (name, d, s, i, T.term_show(got[i], None), T.term_show(exp[i], None)))
+                    bad = 'r%d = %s after `%s` (specification: %s); e.g. the code gives %#x, the specification %#x' % (i, T.term_show(got[i], None), ' ; '.join(tr), T.term_show(exp[i], None), differs[1], differs[2])
+                    break
+        inst = 'superscalar %s dst=r%d src=r%d%s imm32=%#x' % (name, d, s, ' shift=%d' % sh if name == 'IADD_RS' else '', imm)
+        if bad:
+            R.violation(inst, where, expected='registers as in specification Table 6.1.1', found=bad)
+        else:
+            R.ok(inst, where)
+    if n < 500:
+        raise AnalysisBroken('RV-SS-HSEM: only %d cases evaluated' % n)
